@@ -71,16 +71,13 @@ def _parse_tree_with_params(raw_tree, scheme, context=None):
 
 
 def _parse_raw_rule(raw_rule, scheme):
-    try:
-        index = raw_rule.index("%")
-        params = {
-            key: (value if len(value) != 0 else "1")
-            for (key, value) in re.findall(r"\s%([a-zA-Z_]\w*)(?:=([^\s]*))?", raw_rule)
-        }
-        if params:
-            raw_rule = raw_rule[:index].strip()
-    except ValueError:
-        params = {}
+    params = {
+        key: (value if len(value) != 0 else "1")
+        for (key, value) in re.findall(r"\s%([a-zA-Z_]\w*)(?:=([^\s]*))?", raw_rule)
+    }
+    if params:
+        # the row ends where the first parameter begins (a `%` inside a word -- `50%`, `fe80::1%Vlanif10` -- belongs to the row)
+        raw_rule = raw_rule[:re.search(r"\s%[a-zA-Z_]", raw_rule).start()].strip()
 
     row = re.sub(r"\s+", " ", raw_rule.strip())
     params = _fill_and_validate(params, scheme, raw_rule)
